@@ -343,6 +343,9 @@ pub fn run_case(c: &C09Case, n: u64) -> Verdict {
         let _ = std::fs::write(other.join("o1"), b"other-device-1");
         let _ = std::fs::write(other.join("sub/o2"), b"other-device-1");
         have_other = std::os::unix::fs::symlink(&other, tree.join(ROOT_NAMES[0]).join("to_other_fs")).is_ok();
+        // and a regular file there, reachable through a symlink of its own
+        let _ = std::fs::write(other.join("o3"), b"other-device-3");
+        let _ = std::os::unix::fs::symlink(other.join("o3"), tree.join(ROOT_NAMES[0]).join("to_other_file"));
     }
     let v = judge(c, &cd, &built, have_other);
     let _ = std::fs::remove_dir_all(&other);
@@ -565,7 +568,7 @@ pub fn check(tier: Tier) -> i32 {
     cleanup_process_scratch();
     ctx.finish(
         "exploration",
-        "proptest-generated trees (nesting 0-4, names with regex metacharacters, blanks, brackets, non-ASCII and leading dots, .gitignore/.fdignore files from a restricted grammar {name, *.ext, /anchored, dir/, !negation within one file}, hard links, relative/absolute (canonical or through `..`)/dangling/cyclic symlinks, a sub-tree on the other device reached through a symlink) x --depth 0-5, --hidden, --no-ignore, -L, -S, --min/--max, --name/--path/--exclude as globs or (small grammar) regexes, absolute or relative to a working directory inside the tree, -i with case-flipped patterns, --one-fs, overlapping and repeated roots given as arguments or through --stdin; with --no-ignore, half of the cases also have a user-level ignore file ($XDG_CONFIG_HOME/git/ignore) that must then have no effect. Observation: `group --rf-over 0 -f json` lists every selected file. Oracle: reference walk written from README/--help (pruning does not exist in it): exact set equality, no path twice. Non-trivial = the expected set is non-empty, differs from 'all files' and contains a file deeper than level 2 or below a directory with a metacharacter / non-ASCII name.",
+        "proptest-generated trees (nesting 0-4, names with regex metacharacters, blanks, brackets, non-ASCII and leading dots, .gitignore/.fdignore files from a restricted grammar {name, *.ext, /anchored, dir/, !negation within one file}, hard links, relative/absolute (canonical or through `..`)/dangling/cyclic symlinks, a sub-tree and a single file on the other device reached through symlinks) x --depth 0-5, --hidden, --no-ignore, -L, -S, --min/--max, --name/--path/--exclude as globs or (small grammar) regexes, absolute or relative to a working directory inside the tree, -i with case-flipped patterns, --one-fs, overlapping and repeated roots given as arguments or through --stdin; with --no-ignore, half of the cases also have a user-level ignore file ($XDG_CONFIG_HOME/git/ignore) that must then have no effect. Observation: `group --rf-over 0 -f json` lists every selected file. Oracle: reference walk written from README/--help (pruning does not exist in it): exact set equality, no path twice. Non-trivial = the expected set is non-empty, differs from 'all files' and contains a file deeper than level 2 or below a directory with a metacharacter / non-ASCII name.",
         &["outside the generated domain (documentation does not settle them): hidden root names, .gitignore and .fdignore in one directory, negation in a deeper ignore file overriding a parent's rule, ignore files together with -L", "regex mode uses three pattern shapes with a reference predicate each"],
     )
 }
